@@ -405,6 +405,21 @@ def estimate_scale(
     return result
 
 
+def _negligible_scale(
+    scale: np.ndarray,
+    data: np.ndarray,
+    axis: int | tuple[int, ...] | None,
+) -> np.ndarray:
+    """Whether a scale estimate is zero to within the rounding of its own data.
+
+    The test is relative to the level of the data (1e-12 of the largest magnitude along
+    the reduced axes) instead of an absolute tolerance, so that data of very small
+    amplitude (e.g. 1e-18) are not mistaken for constant data.
+    """
+    level = np.max(np.abs(data), axis=axis, keepdims=True, initial=0)
+    return np.abs(scale) <= 1e-12 * level
+
+
 def estimate_zscore(
     data: ArrayLike,
     loc_method: LocMethods | Literal["norm"] = "median",
@@ -458,7 +473,7 @@ def estimate_zscore(
         if scale_method == "norm"
         else estimate_scale(data, scale_method, axis, keepdims=True)
     )
-    zero_scales = np.isclose(scale, 0)
+    zero_scales = _negligible_scale(scale, data, axis)
     if np.any(zero_scales):
         scale = np.where(zero_scales, 1, scale)
 
@@ -521,8 +536,8 @@ def _scale_mad(
     norm_aad = np.sqrt(2 / np.pi)
     loc = np.median(data, axis=axis, keepdims=True)
     mad = np.median(np.abs(data - loc), axis=axis, keepdims=True) / norm
-    # Handle zero MAD case using np.isclose for stability
-    is_zero_mad = np.isclose(mad, 0)
+    # Handle zero MAD case (zero relative to the level of the data, for stability)
+    is_zero_mad = _negligible_scale(mad, data, axis)
     if np.any(is_zero_mad):
         aad = np.mean(np.abs(data - loc), axis=axis, keepdims=True) / norm_aad
         mad = np.where(is_zero_mad, aad, mad)
@@ -569,12 +584,12 @@ def _scale_doublemad(
 
     # Replace zero MADs with mean absolute deviation
     mad_left = np.where(
-        np.isclose(mad_left, 0),
+        _negligible_scale(mad_left, data, axis),
         np.nanmean(data_left, axis=axis, keepdims=True) / norm_aad,
         mad_left,
     )
     mad_right = np.where(
-        np.isclose(mad_right, 0),
+        _negligible_scale(mad_right, data, axis),
         np.nanmean(data_right, axis=axis, keepdims=True) / norm_aad,
         mad_right,
     )
